@@ -52,6 +52,11 @@ TRUSTED = [
     "Noise NNpsk0 (noiseprotocol is not installed): ToyNoise in the harness; a KCM can only come from the peer (C12)",
     "TrafficTimer/ping timer are not advanced (C16); its disconnect is exercised by calling Manager._signal_reconnect directly",
     "listener readiness is synchronous (as Twisted's TCP4ServerEndpoint.listen), one direct hint per listener, no relay, no Tor",
+    "silent loss = a direction of a link stops delivering for good and neither end is told; ping intervals elapse on the side's "
+    "task.Clock and fire the REAL DelayedCall the Manager scheduled (one at a time, chosen by the case); application data is "
+    "Manager.send_open on the real Outbound/Inbound/SubChannel (held pending by the real SubchannelDemultiplex); the finite "
+    "certificate with these features (absS) allows one link at a time and one record per side — the 2-link certificate (absK) "
+    "has no records, timer expiry or silent loss; both are exercised together only by the differential runs",
     "network reachability is a per-run constant: the set of sides whose DIALLED connections get through (both, only A, only B; "
     "an unreachable dial fails with ConnectError/TimeoutError); the proviso 'at least one attempt of the new generation may "
     "complete' = the network never drops the last VIABLE candidate, where fresh hints count from the moment they are sent "
@@ -60,7 +65,9 @@ TRUSTED = [
 RULE = ("guided random schedules of the two-sided dilation world (profiles: plain, lossy, races, reorder, early-messages, "
         "equal-sides) over key/versions/dilate() timing, mailbox arrival order (through the real Boss.D_received_dilate), "
         "connection attempts, handshake progress in seeded chunkings, KCM deliveries, selection turns, loss of either end of any "
-        "link, timer-style disconnects; every step compared with the Lean model (both Manager/Connector/DCP states, roles, "
+        "link, silent loss of either direction of any link, expiry of the leader's real ping DelayedCall, application records "
+        "(real Outbound: un-acked records are re-sent on every new connection) and their Acks/Pings/Pongs delivered one by one, "
+        "timer-style disconnects; every step compared with the Lean model (both Manager/Connector/DCP states, roles, "
         "Manager._connection, eventual queues, channels); every schedule runs in one of three networks (both sides can dial, only A, "
         "only B) and must re-converge in all of them; thorough adds the exhaustive interleavings of one loss + reconnect (after "
         "selection on both sides, and while the follower is still CONNECTING) with both-way and leader-only dialling; "
@@ -135,6 +142,7 @@ class Link:
         self.dialer = dialer                  # side name of the outbound end
         self.buf = {"A": b"", "B": b""}       # bytes written by that side and not yet delivered to the other
         self.ntok = {"A": 0, "B": 0}          # complete tokens of that side's stream already delivered
+        self.sil = {"A": False, "B": False}   # silent loss: what that side writes is no longer delivered; nobody is told
         self.end = {}
         self.proto = {}
 
@@ -368,7 +376,32 @@ class World:
             eqs.append(kind + (str(k) if k is not None else "?"))
         tt = "-" if m._traffic is None else automat_state(m._traffic)
         return (base + f" mgr={automat_state(m)} role={role} con={cst} lst={lst} stale={stale} att=[{','.join(att)}] conn={conn} "
-                f"eq=[{','.join(eqs)}] tt={tt} gen={m._next_dilation_generation}")
+                f"eq=[{','.join(eqs)}] tt={tt} gen={m._next_dilation_generation} "
+                f"tm={1 if self.ping_timer(s) is not None else 0} oq=[{','.join(str(r.seqnum) for r in m._outbound._outbound_queue)}] "
+                f"rxh={m._inbound._highest_inbound_acked + 1}")
+
+    def ping_timer(self, s):
+        """the pending ping-interval DelayedCall on the side's reactor (the real one Manager created), or None"""
+        zero = set(id(dc) for dc in s.rclock.allzero)
+        for dc in s.rclock.calls:
+            if id(dc) not in zero and dc.active():
+                return dc
+        return None
+
+    def rec_names(self, l, x):
+        """the complete records (tokens after prologue, handshake, KCM) waiting in x's outgoing buffer"""
+        out = []
+        b = l.buf[x]
+        idx = l.ntok[x]
+        while True:
+            k = self.token_len(l, x, b, idx == 0)
+            if k is None:
+                return out
+            if idx >= 3:
+                r = dconn_parse(b[4:k - 16])
+                out.append(r)
+            b = b[k:]
+            idx += 1
 
     def show_link(self, i):
         l = self.links[i]
@@ -381,11 +414,11 @@ class World:
             hs = "1" if (l.ntok[fo] >= 2 and l.ntok[ld] >= 2) else "0"
             kf = "1" if (l.ntok[fo] == 2 and self.tokens_ready(l, fo) >= 1) else "0"
             kl = "1" if (l.ntok[ld] == 2 and self.tokens_ready(l, ld) >= 1) else "0"
-            extra = sum(max(0, l.ntok[x] + self.tokens_ready(l, x) - 3) for x in "AB")   # tokens beyond the KCMs: none, ever
-            parts.append(f"hs={hs} kf={kf} kl={kl} extra={extra}")
+            sil = ("A" if l.sil["A"] else "") + ("B" if l.sil["B"] else "") or "-"
+            parts.append(f"hs={hs} kf={kf} kl={kl} sil={sil} qa=[{','.join(self.rec_names(l, 'A'))}] qb=[{','.join(self.rec_names(l, 'B'))}]")
         for x in "AB":
             p = l.proto[x]
-            parts.append(f"{x}:{self.owner(self.sides[x], p)}/{automat_state(p)}/{l.end[x].status}")
+            parts.append(f"{x}:{self.owner(self.sides[x], p)}/{automat_state(p)}/{l.end[x].status}/{len(p._inbound_record_queue)}")
         return " ".join(parts)
 
     def show_chan(self, x):
@@ -439,7 +472,7 @@ class World:
     def deliver_token(self, l, x, rng, part=False):
         """the next complete token of x's stream goes to the other end (if that end is open)"""
         y = "B" if x == "A" else "A"
-        if l.end[y].status != "open":
+        if l.end[y].status != "open" or l.sil[x]:
             return False
         k = self.token_len(l, x, l.buf[x], l.ntok[x] == 0)
         if k is None:
@@ -457,7 +490,7 @@ class World:
         ld, fo = self.role_name(LEADER), self.role_name(FOLLOWER)
         if ld is None or fo is None:
             return False
-        if l.end["A"].status != "open" or l.end["B"].status != "open":
+        if l.end["A"].status != "open" or l.end["B"].status != "open" or l.sil["A"] or l.sil["B"]:
             return False
         return not (l.ntok[fo] >= 2 and l.ntok[ld] >= 2)
 
@@ -470,14 +503,14 @@ class World:
         if ld is None or fo is None:
             return False
         src, dst = (fo, ld) if frm == "f" else (ld, fo)
-        return l.ntok[src] == 2 and self.tokens_ready(l, src) >= 1 and l.end[dst].status == "open"
+        return l.ntok[src] == 2 and self.tokens_ready(l, src) >= 1 and l.end[dst].status == "open" and not l.sil[src]
 
     def other_candidates(self, i):
         n = 0
         for j, l in enumerate(self.links):
             if l is None or j == i:
                 continue
-            if all(l.end[x].status == "open" and self.owner(self.sides[x], l.proto[x]) == "cur" for x in "AB"):
+            if all(l.end[x].status == "open" and not l.sil[x] and self.owner(self.sides[x], l.proto[x]) == "cur" for x in "AB"):
                 n += 1
         for x in "AB":
             s = self.sides[x]
@@ -502,19 +535,22 @@ class World:
         ld = self.role_name(LEADER)
         if ld is not None and automat_state(l.proto[ld]) == "selected":
             return True
-        if any(l.end[x].status != "open" for x in "AB"):
+        if any(l.end[x].status != "open" or l.sil[x] for x in "AB"):
             return True
         if any(self.owner(self.sides[x], l.proto[x]) != "cur" for x in "AB"):
             return True
         return self.other_candidates(i) > 0
 
     def more_enabled(self, i, x):
-        """a token beyond prologue/handshake/KCM written by x is waiting (never, with the code as it is)"""
+        """a record (a token beyond prologue/handshake/KCM) written by x is waiting and can be delivered"""
         if i >= len(self.links) or self.links[i] is None:
             return False
         l = self.links[i]
         y = "B" if x == "A" else "A"
-        return l.ntok[x] >= 3 and self.tokens_ready(l, x) >= 1 and l.end[y].status == "open"
+        return l.ntok[x] >= 3 and self.tokens_ready(l, x) >= 1 and l.end[y].status == "open" and not l.sil[x]
+
+    def healthy(self, l):
+        return all(l.end[x].status == "open" and not l.sil[x] for x in "AB")
 
     def enabled_ops(self):
         out = []
@@ -538,6 +574,10 @@ class World:
             m = s.mgr
             if m is not None and m._my_role is LEADER and m._connection is not None:
                 out.append(["sigrec", x])
+            if m is not None and m._my_role is not None:
+                out.append(["write", x])
+            if self.ping_timer(s) is not None:
+                out.append(["tick", x])
         for i, l in enumerate(self.links):
             if l is None:
                 continue
@@ -553,6 +593,8 @@ class World:
                     out.append(["lose", x, i])
                 if self.more_enabled(i, x):
                     out.append(["more", x, i])
+                if not l.sil[x] and self.kill_ok(i):
+                    out.append(["silence", x, i])
         return out
 
     # ---- one operation on the real code --------------------------------------------------------
@@ -565,7 +607,7 @@ class World:
         skipped = False
         exn = None
         try:
-            if k in ("key", "vers", "dilate", "connect", "turn", "sigrec"):
+            if k in ("key", "vers", "dilate", "connect", "turn", "sigrec"):  # noqa
                 x = op[1]
                 s = self.sides[x]
                 line = f"{k} {x}"
@@ -642,6 +684,32 @@ class World:
                     l = self.links[i]
                     src = self.role_name(FOLLOWER if k == "kcmf" else LEADER)
                     self.deliver_token(l, src, rng)
+            elif k == "write":
+                x = op[1]
+                s = self.sides[x]
+                line = f"write {x}"
+                m = s.mgr
+                if m is None or m._my_role is None:
+                    skipped = True
+                else:
+                    m.send_open(m.allocate_subchannel_id(), "c11")       # the application opens a subchannel
+            elif k == "tick":
+                x = op[1]
+                s = self.sides[x]
+                line = f"tick {x}"
+                dc = self.ping_timer(s)
+                if dc is None:
+                    skipped = True
+                else:
+                    s.rclock.rightNow = max(s.rclock.rightNow, dc.getTime())   # the interval elapses on the real Clock
+                    s.rclock.run(dc)                                           # … and the real DelayedCall fires
+            elif k == "silence":
+                x, i = op[1], op[2]
+                line = f"silence {x} {i}"
+                if i >= len(self.links) or self.links[i] is None or self.links[i].sil[x] or not self.kill_ok(i):
+                    skipped = True
+                else:
+                    self.links[i].sil[x] = True
             elif k == "more":
                 x, i = op[1], op[2]
                 line = f"more {x} {i}"
@@ -689,6 +757,21 @@ def describe_exc(e):
     if m:
         return f"NoTransition:{m.group(1)}.{m.group(3)}:{m.group(2)}"
     return type(e).__name__
+
+
+def dconn_parse(plaintext):
+    """name of an L2 record as the model prints it"""
+    from wormhole._dilation.connection import parse_record, Open, Data, Close, Ack, Ping, Pong, KCM
+    r = parse_record(plaintext)
+    if isinstance(r, (Open, Data, Close)):
+        return f"o{r.seqnum}"
+    if isinstance(r, Ack):
+        return f"a{r.resp_seqnum}"
+    if isinstance(r, Ping):
+        return "pi"
+    if isinstance(r, Pong):
+        return "po"
+    return "kcm" if isinstance(r, KCM) else "?"
 
 
 def patches(world):
@@ -766,7 +849,7 @@ def goal(w):
         return False
     for l in w.links:
         if l is not None and l.proto["A"] is a.mgr._connection and l.proto["B"] is b.mgr._connection:
-            return l.end["A"].status == "open" and l.end["B"].status == "open"
+            return w.healthy(l)
     return False
 
 
@@ -825,9 +908,25 @@ def cooperative_completion(w, log):
                 do(["hs", i]); progress = True; break
         if progress:
             continue
+        for i, l in enumerate(w.links):
+            if l is not None:
+                for x in "AB":
+                    if w.more_enabled(i, x):
+                        do(["more", x, i]); progress = True
+        if progress:
+            continue
         for x in "AB":
             if w.sides[x].pending_attempts():
                 do(["connect", x]); progress = True; break
+        if progress:
+            continue
+        # a connection that no longer delivers (silent loss) is only discovered by the leader's ping timer
+        for x in "AB":
+            m = w.sides[x].mgr
+            if m is not None and m._connection is not None and w.ping_timer(w.sides[x]) is not None:
+                k = w.slot_of(m._connection)
+                if k is not None and not w.healthy(w.links[k]):
+                    do(["tick", x]); progress = True
         if progress:
             continue
         # nothing left to deliver and not converged: let the network drop a link that is not shared
@@ -871,6 +970,12 @@ def run_ops(sa, sb, ops, choose=None, nsteps=0, final=True, reach="AB"):
                 tags.add("equal-sides-raise")          # `raise ValueError("their side shouldn't be equal: reflection?")`
             elif oc.startswith("exn:"):
                 d = w.details[0] if w.details else oc[4:]
+                if d == "NoTransition:DilatedConnectionProtocol.unselected:got_record" and op[0] in ("kcml", "more"):
+                    fo = w.role_name(FOLLOWER)
+                    if fo is not None and (op[0] == "kcml" or op[1] != fo):
+                        viol.append(("follower-used-unconfirmed-connection",
+                                     f"step {len(done)} {line}: the follower was handed a record on a connection the leader had not "
+                                     f"confirmed with its KCM (DilatedConnectionProtocol still `unselected`); state {w.show()}"))
                 if "exception:" + d == KNOWN_STOPPED_CANDIDATE:
                     # a KCM reaching an inbound link of a Connector that was already stopped: NoTransition escapes
                     # that stale link's dataReceived and Twisted drops the link — which is what should happen to it.
@@ -975,6 +1080,23 @@ CORPUS = [
                                          ["arrive", "A", 0, 0], ["arrive", "B", 0, 0], ["arrive", "A", 1, 0], ["arrive", "B", 1, 0], ["connect", "B", 0],
                                          ["connect", "A", 0], ["hs", 0, 3], ["kcmf", 0, 5], ["turn", "B", 0], ["lose", "B", 0, 0], ["turn", "B", 0],
                                          ["arrive", "A", 2, 0]]),
+    # WV.Props.C11.afterSilentLoss: the connection in use turns into a black hole (both directions), nobody is told; the
+    # leader's REAL ping DelayedCall fires twice, the leader hangs up, its Manager must be told and send `reconnect`
+    dict(sa="b", sb="a", ops=SETUP + [["kcml", 0, 2], ["turn", "B", 0], ["write", "A", 0], ["silence", "A", 0, 0], ["silence", "B", 0, 0],
+                                      ["tick", "A", 0], ["tick", "A", 0], ["lose", "A", 0, 0], ["turn", "A", 0]]),
+    # half-open: only the follower->leader direction dies (no Pong comes back); then left to the cooperative completion
+    dict(sa="b", sb="a", ops=SETUP + [["kcml", 0, 2], ["turn", "B", 0], ["silence", "B", 0, 0], ["tick", "A", 0], ["more", "A", 0, 4]]),
+    # a ping that IS answered keeps the connection: tick, ping, pong, tick again
+    dict(sa="b", sb="a", ops=SETUP + [["kcml", 0, 2], ["turn", "B", 0], ["tick", "A", 0], ["more", "A", 0, 1], ["more", "B", 0, 1], ["tick", "A", 0],
+                                      ["more", "A", 0, 2], ["more", "B", 0, 3]]),
+    # a record written before the first connection: Outbound.use_connection re-sends it AFTER the leader's KCM
+    dict(sa="b", sb="a", ops=SETUP[:-1] + [["write", "A", 0], ["turn", "A", 0], ["kcml", 0, 2], ["more", "A", 0, 1], ["turn", "B", 0],
+                                           ["more", "A", 0, 1]]),
+    # the connection dies with an un-acked leader record; the next generation re-sends it behind the KCM
+    dict(sa="b", sb="a", ops=SETUP + [["kcml", 0, 2], ["turn", "B", 0], ["write", "A", 0], ["write", "B", 0], ["lose", "A", 0, 0], ["turn", "A", 0],
+                                      ["lose", "B", 0, 0], ["turn", "B", 0], ["arrive", "B", 1, 0], ["arrive", "B", 2, 0], ["arrive", "A", 2, 0],
+                                      ["arrive", "A", 3, 0], ["connect", "A", 0], ["hs", 0, 1], ["kcmf", 0, 1], ["turn", "A", 0], ["kcml", 0, 1],
+                                      ["more", "A", 0, 1], ["turn", "B", 0], ["more", "B", 0, 1], ["more", "B", 0, 1]]),
     # equal sides: ValueError on both
     dict(sa="same", sb="same", ops=[["key", "A", 0], ["vers", "A", 0], ["dilate", "A", 0], ["key", "B", 0], ["vers", "B", 0], ["dilate", "B", 0],
                                     ["arrive", "A", 0, 0], ["arrive", "B", 0, 0]]),
@@ -985,6 +1107,14 @@ PROFILES = ["plain", "lossy", "races", "reorder", "early", "equal"]
 
 def weight(profile, w, op):
     k = op[0]
+    # application records, ping-timer expiry and silent loss: rare in every profile, a few records per run
+    if k == "write":
+        m = w.sides[op[1]].mgr
+        return 0.0 if m._outbound._next_outbound_seqnum >= 3 else (0.25 if m._my_role is LEADER else 0.1)
+    if k == "tick":
+        return {"plain": 0.03, "lossy": 0.25, "races": 0.15}.get(profile, 0.08)
+    if k == "silence":
+        return {"plain": 0.01, "lossy": 0.15, "races": 0.1}.get(profile, 0.04)
     if profile == "plain":
         return {"lose": 0.02, "sigrec": 0.02, "hspart": 0.3, "arrive": 3.0 if op[0] == "arrive" and op[2] == min(
             j for j in range(len(w.peer(op[1]).sent)) if j not in w.sides[op[1]].arrived) else 0.0}.get(k, 1.0)
